@@ -1091,8 +1091,10 @@ Definition xv_merge_out_of_fuel (s : schema) (d : document) : bool :=
 (* apollo-compiler's internal limits (documents beyond them are outside the range of the tie):
    fragment spreads nested more than 100 deep (validation/fragment.rs RecursionStack limit),
    selection nesting with fragments expanded beyond FIELD_DEPTH_LIMIT = 128 (validation/selection.rs).
-   A conservative bound: the document is within the limits if (fragments + 1) * (deepest selection) < 100. *)
-Definition xv_within_limits (d : document) : bool := Nat.ltb (xv_merge_fuel d) 100.
+   A conservative bound: fewer than 100 fragments (a chain of spreads visits distinct fragments), and
+   (fragments + 1) * (deepest selection + 1) at most 128. *)
+Definition xv_within_limits (d : document) : bool :=
+  Nat.ltb (length (xv_frags d)) 100 && Nat.leb (xv_merge_fuel d) 128.
 
 (* ------------------------------------------------------------------------------------------------ *)
 (* the verdict *)
